@@ -8,6 +8,8 @@
  *   twalk <seed> <steps> <out>                  random walk over every register of the tree (user registers included) and *CLS
  *   codes <out>                                 every error code -32768..32767 on a fresh context
  *   path <opsfile> <cap> <out>                  ops of the file in sequence from the initial state
+ *   bigq <cap> <out>                            a queue of up to 32767 entries (the capacity is an int16_t): filled and
+ *                                               turned so far that the ring indices pass 32767 - cap, then overflow, pop, push ...
  */
 #include <stdio.h>
 #include <stdlib.h>
@@ -19,7 +21,8 @@
 static scpi_t ctx;
 static char ibuf[256];
 #define BIGCAP 300                /* random walks may use a queue larger than the explorations do (capacity 256: one byte does not count it) */
-static scpi_error_t eq[BIGCAP];
+static scpi_error_t eq_store[BIGCAP];
+static scpi_error_t * eq = eq_store;     /* the queue array (bigq mode allocates the largest ones) */
 static int cap = 1;
 
 static int srqv[32], srqn;
@@ -86,7 +89,7 @@ static int regindex(const char * n) {
 typedef struct { char kind[12]; char name[24]; long val; int hasval; } op_t;
 
 static void fresh(void) {
-    memset(eq, 0, sizeof eq);
+    memset(eq_store, 0, sizeof eq_store);
     memset(ibuf, 0, sizeof ibuf);
     SCPI_Init(&ctx, cmds, &itf, scpi_units_def, "MF", "MD", NULL, "1", ibuf, sizeof ibuf, eq, (int16_t) cap);
 }
@@ -366,12 +369,49 @@ static int path(const char * opsfile, const char * outpath) {
     return 0;
 }
 
+/* the largest queues: records carry the whole queue, so only the interesting steps are recorded */
+static int bigq(const char * outpath) {
+    FILE * f = fopen(outpath, "w");
+    static const char * seq[] = {"push", "push", "pop", "push", "push", "pop", "count", "cmd", "push", "clear", "push", "pop", "pop"};
+    long i, k, nrec = 0;
+    char * from = NULL;
+    size_t fromn = 0;
+    eq = calloc((size_t) cap, sizeof *eq);
+    memset(ibuf, 0, sizeof ibuf);
+    SCPI_Init(&ctx, cmds, &itf, scpi_units_def, "MF", "MD", NULL, "1", ibuf, sizeof ibuf, eq, (int16_t) cap);
+    for (i = 0; i < cap; i++) SCPI_ErrorPush(&ctx, (int16_t) (-100 - (i % 97)));
+    k = 32770L - cap;                       /* turn the ring: the write index ends at k (mod cap) */
+    if (k < 2) k = 2;
+    if (k >= cap) k = cap - 1;
+    for (i = 0; i < k; i++) { scpi_error_t e; SCPI_ErrorPop(&ctx, &e); }
+    for (i = 0; i < k; i++) SCPI_ErrorPush(&ctx, (int16_t) (-200 - (i % 89)));
+    for (i = 0; i < (long) (sizeof seq / sizeof seq[0]); i++) {
+        op_t o;
+        FILE * m = open_memstream(&from, &fromn);
+        print_state(m);
+        fclose(m);
+        memset(&o, 0, sizeof o);
+        strcpy(o.kind, seq[i]);
+        if (!strcmp(seq[i], "push")) o.val = -300 - (int) i;
+        if (!strcmp(seq[i], "cmd")) strcpy(o.name, "SYST:ERR?");
+        apply(&o);
+        record(f, from, &o);
+        free(from); from = NULL;
+        nrec++;
+    }
+    fclose(f);
+    free(eq); eq = eq_store;
+    printf("{\"records\":%ld,\"cap\":%d,\"turned\":%ld}\n", nrec, cap, k);
+    return 0;
+}
+
 int main(int argc, char ** argv) {
     if (getenv("DRV_NO_ERROR_CALLBACK")) itf.error = NULL;      /* the error callback is optional: the status byte must not depend on it */
     if (argc >= 6 && !strcmp(argv[1], "explore")) { cap = atoi(argv[3]); return explore(argv[2], atol(argv[4]), argv[5]); }
     if (argc >= 6 && !strcmp(argv[1], "walk")) { cap = atoi(argv[4]); return walk(strtoul(argv[2], 0, 10), atol(argv[3]), argv[5]); }
     if (argc >= 5 && !strcmp(argv[1], "twalk")) { cap = 2; return twalk(strtoul(argv[2], 0, 10), atol(argv[3]), argv[4]); }
     if (argc >= 3 && !strcmp(argv[1], "codes")) { cap = 2; return allcodes(argv[2]); }
+    if (argc >= 4 && !strcmp(argv[1], "bigq")) { cap = atoi(argv[2]); if (cap < 2 || cap > 32767) return 3; return bigq(argv[3]); }
     if (argc >= 5 && !strcmp(argv[1], "path")) { cap = atoi(argv[3]); return path(argv[2], argv[4]); }
     fprintf(stderr, "usage\n");
     return 3;
